@@ -28,8 +28,8 @@ import (
 //   c07.rt <now> T                     save the table, read the file, load it with a fresh offsetDB
 //   c07.parse <now> <content>          offsetDB.parse
 //   c07.seq <nsrc> <nops> ops…         commits / truncations / saves in a sequential schedule
-//   c07.conc <nsrc> <ncommits> <nsaves> one committing goroutine per source against a saving goroutine;
-//                                      result = the observed event log cs.<i>.<k> cd.<i>.<k> ss se <L>
+//   c07.conc <nsrc> <m> <nf> <nsaves> <maxcommits>  one committing goroutine per source (jobs with
+//                                      m*(1+nf) streams) against the saver; per save: s <lo…> <hi…> <L>
 // Process part (this binary re-executed as a child under strace, faults / SIGKILL injected at a
 // syscall of the save; the parent then loads what is left on disk):
 //   c07.proto file|gen <nf> (<err|kill> <op>)… <hasold> old new
@@ -243,14 +243,30 @@ func execC07Seq(t *hx.Toks) string {
 	return strings.Join(out, " ")
 }
 
-// execC07Conc: real concurrency between jobProvider.commit and offsetDB.save. Source i commits
-// offset 10k to stream "a" (k odd) / "b" (k even) for k = 1…ncommits; the saver saves and loads
-// nsaves times. Events are logged in the order a harness mutex serialised them: cs = commit about
-// to start, cd = commit returned, ss = save about to start, se = save returned and file loaded.
+// c07ConcName is the name of the stream at position p of a job's SliceMap: zero-padded position
+// (so that name order = position order) + 'r' for a stream the racing committer keeps updating,
+// 'f' for a filler that is committed once.
+func c07ConcName(p, nf int) string {
+	kind := "f"
+	if p%(1+nf) == 0 {
+		kind = "r"
+	}
+	return fmt.Sprintf("%05d%s", p, kind)
+}
+
+// execC07Conc: real concurrency between jobProvider.commit and offsetDB.save on jobs with many
+// streams. Every source has m "racing" streams, each followed by nf fillers (P = m*(1+nf) streams).
+// Commit number k of a source (k = 1, 2, …) carries offset k: for k <= P it creates the stream at
+// position k-1 (set-up, sequential); for k > P it goes round-robin to racing stream (k-P-1) mod m.
+// So the job's table after k commits is a function of k alone (`concTable` in Drv/C07.lean), and a
+// table that mixes two moments differs from every one of them. One committing goroutine per source
+// races the saver; around each save the harness reads lo_i = commits of source i that had returned
+// before the save started and hi_i = commits that had started when it returned.
+// result: per save `s <lo_1…lo_n> <hi_1…hi_n> <L>`.
 func execC07Conc(t *hx.Toks) string {
 	defer quietLogs()()
-	nsrc, ncom, nsav := t.Int(), t.Int(), t.Int()
-	if t.Err != nil || !t.Done() || nsrc < 1 || nsrc > 8 {
+	nsrc, m, nf, nsav, maxc := t.Int(), t.Int(), t.Int(), t.Int(), t.Int()
+	if t.Err != nil || !t.Done() || nsrc < 1 || nsrc > 8 || m < 1 || nf < 0 || m*(1+nf) > 60000 {
 		return "bad-case"
 	}
 	dir := c07Dir()
@@ -261,48 +277,64 @@ func execC07Conc(t *hx.Toks) string {
 		jobs = append(jobs, file.VerifC07Job{Filename: "f" + strconv.Itoa(i), Inode: uint64(i), SourceID: uint64(i)})
 	}
 	p := file.NewVerifC07Provider(cur, tmp, false, jobs)
-	var mu sync.Mutex
-	var log []string
-	emit := func(s string) {
-		mu.Lock()
-		log = append(log, s)
-		mu.Unlock()
+	P := m * (1 + nf)
+	names := make([]string, P)
+	for q := range names {
+		names[q] = c07ConcName(q, nf)
 	}
+	started := make([]atomic.Int64, nsrc+1)
+	done := make([]atomic.Int64, nsrc+1)
 	var seq atomic.Uint64
+	commit := func(i int, k int64) {
+		pos := int(k - 1)
+		if k > int64(P) {
+			pos = int((k-int64(P)-1)%int64(m)) * (1 + nf)
+		}
+		started[i].Add(1)
+		p.Commit(uint64(i), names[pos], k, seq.Add(1))
+		done[i].Add(1)
+	}
+	for i := 1; i <= nsrc; i++ {
+		for k := 1; k <= P; k++ {
+			commit(i, int64(k))
+		}
+	}
+	var stop atomic.Bool
 	var wg sync.WaitGroup
 	for i := 1; i <= nsrc; i++ {
 		wg.Add(1)
 		go func(i int) {
 			defer wg.Done()
-			for k := 1; k <= ncom; k++ {
-				stream := "a"
-				if k%2 == 0 {
-					stream = "b"
-				}
-				emit(fmt.Sprintf("cs.%d.%d", i, k))
-				p.Commit(uint64(i), stream, int64(10*k), seq.Add(1))
-				emit(fmt.Sprintf("cd.%d.%d", i, k))
-				if k%2 == 0 {
-					runtime.Gosched()
-				}
+			for c := 1; c <= maxc && !stop.Load(); c++ {
+				commit(i, int64(P+c))
 			}
 		}(i)
 	}
-	wg.Add(1)
-	go func() {
-		defer wg.Done()
-		for s := 0; s < nsav; s++ {
-			emit("ss")
-			p.Save()
-			var res string
-			withNow(0, func() {
-				res = c07SafeLoad(func() ([]file.VerifC07Job, error) { return file.VerifC07Load(cur) })
-			})
-			emit("se " + res)
+	// let every committer get going before the first save
+	for i := 1; i <= nsrc; i++ {
+		for spin := 0; started[i].Load() <= int64(P) && spin < 1000000 && maxc > 0; spin++ {
+			runtime.Gosched()
 		}
-	}()
+	}
+	var out []string
+	for s := 0; s < nsav; s++ {
+		rec := []string{"s"}
+		for i := 1; i <= nsrc; i++ {
+			rec = append(rec, strconv.FormatInt(done[i].Load(), 10))
+		}
+		p.Save()
+		for i := 1; i <= nsrc; i++ {
+			rec = append(rec, strconv.FormatInt(started[i].Load(), 10))
+		}
+		var res string
+		withNow(0, func() {
+			res = c07SafeLoad(func() ([]file.VerifC07Job, error) { return file.VerifC07Load(cur) })
+		})
+		out = append(out, strings.Join(rec, " ")+" "+res)
+	}
+	stop.Store(true)
 	wg.Wait()
-	return strings.Join(log, " ")
+	return strings.Join(out, " ")
 }
 
 // ------------------------------------------------------------------ process part
@@ -916,12 +948,18 @@ func genC07(w *bufio.Writer, rng *hx.Rng, tier string) {
 	}
 
 	// ---- commits against saves, real goroutines ---------------------------------------------
-	nconc := 60
+	// narrow jobs (2–50 racing streams, few or no fillers), then wide ones (≈2000 streams: the
+	// formatting of one job takes long enough for many commits to land inside it)
+	nnarrow, nwide := 40, 6
 	if thorough {
-		nconc = 1500
+		nnarrow, nwide = 600, 60
 	}
-	for i := 0; i < nconc; i++ {
-		fmt.Fprintf(w, "c07.conc %d %d %d\n", rng.Range(1, 4), rng.Range(1, 40), rng.Range(1, 6))
+	for i := 0; i < nnarrow; i++ {
+		fmt.Fprintf(w, "c07.conc %d %d %d %d %d\n", rng.Range(1, 3), rng.Range(2, 50), rng.Intn(4), rng.Range(2, 8), 400000)
+	}
+	for i := 0; i < nwide; i++ {
+		m := rng.Range(2, 4)
+		fmt.Fprintf(w, "c07.conc %d %d %d %d %d\n", rng.Range(1, 2), m, rng.Range(1500, 2500)/m, rng.Range(4, 8), 400000)
 	}
 
 	// ---- commits / truncations / saves, sequential schedules --------------------------------
